@@ -8,16 +8,16 @@ Local Open Scope N_scope.
 Inductive finding := FTxLimit | FDirectLimitOrder.
 
 (* tx-limit: a limited clear (ClearPrefixLimit, ClearPrefixInChildWithLimit, DeleteChildLimit
-   with a limit) inside a transaction, whose limit does not exceed the number of matching keys of
-   the committed state that the transaction has not overwritten, while the transaction already
-   holds a change in the cleared range (a pending upsert with the prefix, or a pending deletion of
-   a matching committed key).  storageDiff.clearPrefix / deleteChildLimit then stop at the limit
-   in the merged key order and count already-deleted keys, where Substrate removes every overlay
-   key and counts only keys newly removed from the backend. *)
+   with a limit) inside a transaction that already holds a pending upsert in the cleared range,
+   with a limit that does not exceed the number of matching keys of the committed state.
+   storageDiff.clearPrefix / deleteChildLimit walk the pending and the committed keys in one
+   merged order and stop once `limit` committed keys that are not overwritten were deleted:
+   pending upserts sorted after the stopping point survive (limit 0: all of them), and committed
+   keys overwritten in the transaction do not count against the limit.  Substrate removes every
+   overlay key and then visits the first `limit` committed keys, overwritten or not.
+   (Committed keys whose deletion is already pending DO count in both: no guard is needed.) *)
 Definition limit_guard (d : sdiff) (prefix : key) (stateKeys : list key) (n : N) : bool :=
-  let s := filter (fun k => negb (om_mem k (ups d))) stateKeys in
-  (n <=? N.of_nat (length s)) &&
-  (existsb (has_prefix prefix) (om_keys (ups d)) || existsb (fun k => ks_mem k (dels d)) stateKeys).
+  (n <=? N.of_nat (length stateKeys)) && existsb (has_prefix prefix) (om_keys (ups d)).
 
 (* direct-limit-order: ClearPrefixLimit outside a transaction goes to the trie, which deletes a
    subtree in post-order (a key that is a proper prefix of other matching keys goes last) *)
@@ -31,9 +31,11 @@ Definition step_guard (cf : cfg) (o : op) (s : tstate) : option finding :=
   let b := ts_state s in
   match o, ts_txs s with
   | OClearPrefixLimit p n, [] =>
-    if order_guard (bk_main b) p n then Some FDirectLimitOrder else None
+    if fix_child_prefix cf && covers_child_keys p then None     (* refused: nothing happens *)
+    else if order_guard (bk_main b) p n then Some FDirectLimitOrder else None
   | OClearPrefixLimit p n, D :: _ =>
-    if limit_guard (d_main D) p (state_keys_with_prefix cf (bk_main b) p) n
+    if fix_child_prefix cf && covers_child_keys p then None
+    else if limit_guard (d_main D) p (state_keys_with_prefix cf (bk_main b) p) n
     then Some FTxLimit else None
   | OCClearPrefixLimit c p n, D :: _ =>
     match child_on_state cf D b c with
